@@ -803,7 +803,7 @@ func genPlacements(r gen.R, proto string) plCase {
 				if f.Win == nil {
 					f.Win = map[string][2]int{}
 				}
-				f.Win[k] = [][2]int{{r.Range(1, 4), 10}, {20, r.Range(1, 2)}, {r.Range(1, 8), r.Range(1, 5)}}[r.Intn(3)]
+				f.Win[k] = [][2]int{{r.Range(1, 4), 10}, {20, r.Range(1, 2)}, {r.Range(1, 8), r.Range(1, 5)}, {0, 10}, {20, 0}}[r.Intn(5)]
 			}
 		}
 		f.Refresh = r.Intn(7) == 0
